@@ -1,5 +1,7 @@
-(* Extract_inq.v -- extraction of the C09 input-queue model and its token instance (ExtrOcamlBasic only). *)
+(* Extract_inq.v -- extraction of the C09 input-queue model, its token instance and the raw-key
+   tokenizer / interpreter of ViKeys.v (ExtrOcamlBasic only). *)
 From Coq Require Import List NArith ZArith Extraction ExtrOcamlBasic.
-From NV Require Import InputQueue.
+From NV Require Import InputQueue MotDefs RegDefs ViDefs ViKeys.
 Definition all_types : nat * N * Z := (0%nat, 0%N, 0%Z).
-Extraction "inq_model.ml" all_types tok_run capacity_pushes term_push term_push_append term_read step run.
+Extraction "inq_model.ml" all_types tok_run capacity_pushes term_push term_push_append term_read step run
+  next_command tokens vi_exec vi_session vi_session_trace buf_of_bytes reg_get flat.
